@@ -85,10 +85,17 @@ where
                 }
                 State::Read(chunk_end) => {
                     if this.reader.as_ref().virtual_position() < *chunk_end {
-                        return this.reader.poll_fill_buf(cx);
-                    } else {
-                        State::Seek
+                        ready!(this.reader.as_mut().poll_fill_buf(cx))?;
+
+                        // Filling the buffer skips empty blocks: the reader may now be at (or
+                        // past) the end of the chunk although it was before it a moment ago.
+                        if this.reader.as_ref().virtual_position() < *chunk_end {
+                            // The block is loaded; this does not poll the underlying reader.
+                            return this.reader.poll_fill_buf(cx);
+                        }
                     }
+
+                    State::Seek
                 }
                 State::Done => return Poll::Ready(Ok(&[])),
             };
